@@ -22,7 +22,7 @@ def gen_scenario(r, sid, masked):
     S = r.choice([NONE, 0, 3])
     H = r.choice([NONE, 0, 3])
     chk = r.choice(["unset", "false", "true"])
-    init = {"v": r.choice("01"), "x": "p"}
+    init = {"v": r.choice("0012"), "x": "p"}
     ops = []
     t = 2
     for _ in range(r.randint(1, 7)):
@@ -31,7 +31,7 @@ def gen_scenario(r, sid, masked):
         if k < 0.15:
             ops.append({"t": t, "k": "other", "v": r.choice("01"), "x": "p"})
         else:
-            ops.append({"t": t, "k": "set", "v": r.choice("01"), "x": "p" if masked else r.choice("pq")})
+            ops.append({"t": t, "k": "set", "v": r.choice("00112"), "x": "p" if masked else r.choice("pq")})
     return {"sid": sid, "S": S, "H": H, "chk": chk, "init": init, "ops": ops, "horizon": t + 8, "masked": masked}
 
 
@@ -51,12 +51,12 @@ def source(scn, mode):
         kw.append("state_check_now=%s" % (scn["chk"] == "true"))
     extra = "".join(", " + k for k in kw)
     if mode == "dec":
-        return ('@state_trigger("pyscript.a == \'1\'"%s)\n'
+        return ('@state_trigger("pyscript.a in [\'1\', \'2\']"%s)\n'
                 'def f(var_name=None, value=None, old_value=None):\n'
                 '    vf.rec("run", var_name, value, old_value)\n') % extra
     return ('@time_trigger("startup")\n'
             'def w():\n'
-            '    r = task.wait_until(state_trigger="pyscript.a == \'1\'"%s)\n'
+            '    r = task.wait_until(state_trigger="pyscript.a in [\'1\', \'2\']"%s)\n'
             '    vf.rec("run", r.get("var_name"), r.get("value"), r.get("old_value"))\n') % extra
 
 
@@ -237,6 +237,6 @@ def main(ctx):
     selftest(ctx, [c for c in cases if c["id"] not in rejected][:100])
     ctx.assumptions += [
         "event times lie on a grid of even seconds, S and H are 0 or odd: no ties between expiry and events",
-        "the expression is pyscript.a == '1' (expression truth is C04's and C01's business)",
+        "the expression is pyscript.a in ['1', '2'] (two true values, so that further TRUE evaluations occur during a hold)",
         "state_hold_false combined with any-change names is not generated (the statement is silent)",
     ]
